@@ -513,9 +513,19 @@ def autoforwards_function(func, args, kwargs):
 def _annotations_owner(func):
     """functools.wraps copies __annotations__ onto the wrapper: returns the
     function they were written for, whose module gives them their meaning"""
+    seen = [func]
     try:
-        while func.__wrapped__.__annotations__ is func.__annotations__:
-            func = func.__wrapped__
+        while True:
+            wrapped = func.__wrapped__
+            if isinstance(wrapped, type) or isinstance(func, type):
+                # reading __annotations__ off a class creates the attribute
+                break
+            if any(wrapped is f for f in seen):
+                break
+            if wrapped.__annotations__ is not func.__annotations__:
+                break
+            func = wrapped
+            seen.append(func)
     except AttributeError:
         pass
     return func
